@@ -5,9 +5,8 @@ From MelVerif Require Export STF.Types VM.Codec Generated.
 Open Scope N_scope.
 
 Definition U64MAX : N := 18446744073709551615.
-Definition BUG_TX_HASH : N :=
-  22004396513178750440310033397291427612268627938233426301538826032553869921675.
-  (* 0x30a60b20830f000f755b70c57c998553a303cc11f8b1f574d5e9f7e26b645d8b *)
+(* BUG_TX_HASH (the hash of the one grandfathered faucet transaction) comes from Generated.v: it is re-read from
+   src/state/applytx.rs on every run *)
 
 (* ---------------------------------------------------------------- record updates *)
 Definition set_coins (s : wstate) (c : gmap N cdh) (n : gmap N N) : wstate :=
